@@ -51,6 +51,45 @@ def alphabet(W, rng=None, with_bool=False):
             "extras": extras, "W": W}
 
 
+def alphabet3(W=2):
+    """three variables whose constraints connect / disconnect variable groups in every order (composite solver)"""
+    x, y, z = BVS("x", W), BVS("y", W), BVS("z", W)
+    m = (1 << W) - 1
+    K = lambda v: BVV(v & m, W)  # noqa: E731
+    cons = [
+        T("ULT", x, K(2)), T("__eq__", x, K(m)), T("__ne__", x, K(0)), T("SLT", x, K(0)),
+        T("ULE", y, K(1)), T("__eq__", y, K(0)), T("__ne__", y, K(m)), T("SGE", y, K(0)),
+        T("UGT", z, K(1)), T("__eq__", z, K(1)), T("__ne__", z, K(2)),
+        T("ULT", x, y), T("__eq__", T("__add__", x, y), K(3)), T("__ne__", x, y),
+        T("ULT", y, z), T("__eq__", T("__xor__", y, z), K(1)), T("__eq__", y, z),
+        T("UGT", x, z), T("__eq__", T("__add__", x, z), K(1)),
+        T("__eq__", T("__add__", x, y, z), K(2)),
+        T("Or", T("__eq__", x, K(1)), T("__eq__", z, K(1))), T("And", T("UGE", x, K(1)), T("ULE", y, K(2))),
+        T("And", T("__eq__", x, K(1)), T("__eq__", x, K(2))),
+        BoolV(True), BoolV(False),
+    ]
+    exprs = [x, y, z, T("__add__", x, y), T("__add__", y, z), T("__xor__", x, z), T("__add__", x, y, z)]
+    extras = [[], [], [T("__ne__", x, K(1))], [T("ULT", x, y)], [T("__eq__", y, z)], [T("UGT", x, z)],
+              [T("__eq__", z, K(0))], [T("__eq__", x, K(0)), T("__eq__", x, K(1))]]
+    return {"vars": [["x", W], ["y", W], ["z", W]], "cons": cons, "exprs": exprs, "extras": extras, "W": W}
+
+
+def get_alphabet(job):
+    if job.get("alpha") == "xyz":
+        return alphabet3(job.get("W", 2))
+    A = alphabet(job["W"], with_bool=job.get("with_bool", False))
+    if job.get("alpha") == "approx":
+        # alphabet hygiene (DESIGN 4.2 rule 5): constraint shapes on which constraint_to_si / the VSA transfer
+        # functions are known to be unsound on the pinned tree are reported under C25/C21, not again here
+        drop = {"__and__"}
+        A["cons"] = [c for c in A["cons"] if not TM_contains_op(c, drop)]
+    return A
+
+
+def TM_contains_op(t, ops):
+    return t[0] in ops or any(TM_contains_op(a, ops) for a in t[3])
+
+
 # ----------------------------------------------------------------------------------------------
 # random histories
 # ----------------------------------------------------------------------------------------------
@@ -59,7 +98,8 @@ QUERY_OPS = ["satisfiable", "eval", "eval", "batch_eval", "min", "max", "min", "
              "is_false"]
 
 
-def random_history(rng, A, cls, kw, length, multi=False, pick=False, unsat_core=False, foldable=False):
+def random_history(rng, A, cls, kw, length, multi=False, pick=False, unsat_core=False, foldable=False,
+                   branchy=False):
     W = A["W"]
     m = (1 << W) - 1
     H = [["new", cls, kw]]
@@ -79,6 +119,10 @@ def random_history(rng, A, cls, kw, length, multi=False, pick=False, unsat_core=
     for _ in range(length):
         s = rng.choice(live)
         r = rng.random()
+        if branchy and r > 0.80 and len(live) < 5:
+            r = 0.90            # branch more often
+        if unsat_core and r > 0.90:
+            r = 0.96
         if r < 0.30:
             k = 1 if rng.random() < 0.8 else 2
             H.append(["add", s, [rng.choice(A["cons"]) for _ in range(k)]])
@@ -221,9 +265,15 @@ def mode_of(cls, kw, call_exact):
     return "exact"
 
 
+class NoneAnswer(Exception):
+    """a query returned None instead of a value (seen on SolverVSA for an empty abstract value)"""
+
+
 def vbits(v, e_ast):
     """python value returned by claripy -> bit list at the width of the queried expression"""
     import claripy
+    if v is None:
+        raise NoneAnswer()
     if isinstance(v, bool):
         return [1 if v else 0]
     if isinstance(v, int):
@@ -238,6 +288,7 @@ def run_history(H, vars_, tid, cfg):
     meta = {}       # sid -> (cls, kw)
     events = []
     nid = 0
+    part_id = 50    # ids of split() results: a separate range so that the generator's id counter stays aligned
     cache = {}
     fault = None
 
@@ -281,7 +332,9 @@ def run_history(H, vars_, tid, cfg):
         try:
             if call == "add":
                 e["cs"] = op[2]
-                sol.add([B(c) for c in op[2]])
+                built = [B(c) for c in op[2]]
+                e["cfalse"] = any(c.op == "BoolV" and c.args[0] is False for c in built)
+                sol.add(built)
             elif call == "satisfiable":
                 e["extra"] = op[2]
                 e["ret"] = [[vbits(bool(sol.satisfiable(extra_constraints=[B(c) for c in op[2]], **xk)), None)]]
@@ -349,11 +402,11 @@ def run_history(H, vars_, tid, cfg):
                 e["scons"] = [TM.ser(c) for c in sol.constraints]
                 parts = sol.split()
                 for p in parts:
-                    S[nid] = p
-                    meta[nid] = ("SolverCompositeChild" if cls == "SolverComposite" else cls, kw)
-                    e["new"].append(nid)
+                    S[part_id] = p
+                    meta[part_id] = ("SolverCompositeChild" if cls == "SolverComposite" else cls, kw)
+                    e["new"].append(part_id)
                     e["groups"].append([TM.ser(c) for c in p.constraints])
-                    nid += 1
+                    part_id += 1
             elif call == "unsat_core":
                 e["scons"] = [TM.ser(c) for c in sol.constraints]
                 core = sol.unsat_core()
@@ -376,7 +429,7 @@ def run_history(H, vars_, tid, cfg):
                 e["checks"] = cnt
                 fault = None
         events.append(e)
-    return {"tid": tid, "vars": vars_, "maxid": max(nid, 1), "ev": events}, S, meta
+    return {"tid": tid, "vars": vars_, "maxid": max([nid, 1] + list(S)), "ev": events}, S, meta
 
 
 def main():
@@ -385,12 +438,12 @@ def main():
     out = ShardWriter(sys.argv[2], job.get("shard", 400))
     n_calls = 0
     if job["mode"] == "random":
-        A = alphabet(job["W"], with_bool=job.get("with_bool", False))
+        A = get_alphabet(job)
         for i in range(job["n"]):
             cls, kw = rng.choice(job["classes"])
             H = random_history(rng, A, cls, kw, rng.randint(2, job["len"]), multi=job.get("multi", False),
                                pick=job.get("pickle", False), unsat_core=bool(kw.get("track")),
-                               foldable=job.get("foldable", False))
+                               foldable=job.get("foldable", False), branchy=job.get("branchy", False))
             if job.get("faults") and len(H) > 2:
                 # arm one fault before a random query
                 pos = rng.randrange(1, len(H))
@@ -406,7 +459,7 @@ def main():
             n_calls += len(tr["ev"])
             out.write(tr, nontrivial_key=[H], outcome="trace", sample={"history": H[:8]})
     elif job["mode"] == "list":
-        A = alphabet(job["W"], with_bool=job.get("with_bool", False))
+        A = get_alphabet(job)
         for i, H in enumerate(job["histories"]):
             tr, S, meta = run_history(H, A["vars"], f"{job.get('tag', 'l')}-{i}", job.get("cfg", {}))
             if job.get("probe", True):
